@@ -6,7 +6,7 @@ import subprocess
 import sys
 
 ROOT = os.path.dirname(os.path.dirname(os.path.abspath(__file__)))
-WT = '/root/work/mutrepo'
+WT = os.environ.get('MUTREPO', '/root/work/mutrepo')
 
 
 def sh(cmd, **kw):
